@@ -1718,6 +1718,8 @@ struct sLinkLayerSlaveConnection
     bool sendLinkLayerTestFunction;
 
     bool nextFcb;
+
+    uint8_t lastRequestFc; /* function code of the outstanding REQUEST/RESPOND frame (for identical repetition) */
 };
 
 static LinkLayerSlaveConnection
@@ -1736,6 +1738,7 @@ LinkLayerSlaveConnection_create(LinkLayerSlaveConnection self, LinkLayerPrimaryU
         self->lastSendTime = 0;
         self->originalSendTime = 0;
         self->nextFcb = true;
+        self->lastRequestFc = LL_FC_11_REQUEST_USER_DATA_CLASS_2;
         self->waitingForResponse = false;
 
         self->primaryState = PLL_IDLE;
@@ -2094,6 +2097,7 @@ LinkLayerSlaveConnection_runStateMachine(LinkLayerSlaveConnection self)
             SendFixedFrame(self->primaryLink->linkLayer, LL_FC_02_TEST_FUNCTION_FOR_LINK, self->address, true, false,
                            self->nextFcb, true);
 
+            self->lastRequestFc = LL_FC_02_TEST_FUNCTION_FOR_LINK;
             self->nextFcb = !(self->nextFcb);
             self->lastSendTime = currentTime;
             self->originalSendTime = currentTime;
@@ -2125,6 +2129,7 @@ LinkLayerSlaveConnection_runStateMachine(LinkLayerSlaveConnection self)
                                false, self->nextFcb, true);
 
                 self->requestClass1Data = false;
+                self->lastRequestFc = LL_FC_10_REQUEST_USER_DATA_CLASS_1;
             }
             else
             {
@@ -2134,6 +2139,7 @@ LinkLayerSlaveConnection_runStateMachine(LinkLayerSlaveConnection self)
                                false, self->nextFcb, true);
 
                 self->requestClass2Data = false;
+                self->lastRequestFc = LL_FC_11_REQUEST_USER_DATA_CLASS_2;
             }
 
             self->nextFcb = !(self->nextFcb);
@@ -2216,20 +2222,11 @@ LinkLayerSlaveConnection_runStateMachine(LinkLayerSlaveConnection self)
             {
                 DEBUG_PRINT("[SLAVE %i] TIMEOUT: ASDU not confirmed\n", self->address);
 
-                if (self->requestClass1Data)
-                {
-                    DEBUG_PRINT("[SLAVE %i] PLL - SEND FC 10 - REQ UD 1 [REPEAT]\n", self->address);
+                DEBUG_PRINT("[SLAVE %i] PLL - SEND FC %i [REPEAT]\n", self->address, self->lastRequestFc);
 
-                    SendFixedFrame(self->primaryLink->linkLayer, LL_FC_10_REQUEST_USER_DATA_CLASS_1, self->address,
-                                   true, false, !(self->nextFcb), true);
-                }
-                else
-                {
-                    DEBUG_PRINT("[SLAVE %i] PLL - SEND FC 11 - REQ UD 2 [REPEAT]\n", self->address);
-
-                    SendFixedFrame(self->primaryLink->linkLayer, LL_FC_11_REQUEST_USER_DATA_CLASS_2, self->address,
-                                   true, false, !(self->nextFcb), true);
-                }
+                /* repeat the outstanding request unchanged (same function code, same FCB) */
+                SendFixedFrame(self->primaryLink->linkLayer, self->lastRequestFc, self->address, true, false,
+                               !(self->nextFcb), true);
 
                 self->lastSendTime = currentTime;
             }
